@@ -403,6 +403,11 @@ func runActScript(script string, srvArgs ...string) (string, *fw.OracleFailure) 
 		cl = nil
 		srv.WaitForFrom(mark, func(e sock.Event) bool { return sock.Str(e, "event") == "leave" && sock.Str(e, "key") == key }, 3*time.Second)
 	}
+	if strings.HasPrefix(script, "w") { // the writer may still be inside a slow write callback when the terminal goes away
+		if ms, err := strconv.Atoi(strings.SplitN(script[1:], ",", 2)[0]); err == nil {
+			collect(time.Duration(2*ms) * time.Millisecond)
+		}
+	}
 	collect(1500 * time.Millisecond)
 	if os.Getenv("VERIF_DEBUG_EVENTS") != "" {
 		for _, e := range srv.Snapshot()[mark:] {
@@ -434,7 +439,7 @@ func runActScript(script string, srvArgs ...string) (string, *fw.OracleFailure) 
 		if c.answered && c.returned && res != "resp" && orc == nil {
 			orc = &fw.OracleFailure{Sig: "active/response-lost", Msg: fmt.Sprintf("the terminal answered command %s (platform serial %d, a well-formed response echoing that serial) while the call was waiting with an 8 s time-out, yet the caller got %q", tag, c.serial, res)}
 		}
-		if c.returned && c.short && c.result == "timeout" && c.elapsed > 150+1500 && orc == nil {
+		if c.returned && c.short && c.result == "timeout" && c.elapsed > 150+1500 && orc == nil && !strings.HasPrefix(script, "w") {
 			orc = &fw.OracleFailure{Sig: "active/late-timeout", Msg: fmt.Sprintf("call %s with a 150 ms timeout returned after %d ms", tag, c.elapsed)}
 		}
 		if c.returned && c.deflt && c.result == "timeout" && (c.elapsed > 3000+1500 || c.elapsed < 2500) && orc == nil {
@@ -632,6 +637,9 @@ func genC13(r *fw.Rng, tier string, emit func(fw.Case)) {
 	// commands queued but not yet written when the terminal goes away: every one of them must come back
 	// more short-time-out commands than the completion queue holds (3) expire together while the writer is busy: every
 	// caller gets its time-out when it is due, not when the terminal happens to disconnect
+	// a writer stalled for seconds (slow write callback): the time-out answer of the last command is produced long after
+	// the command was issued; the caller must still get it, and the server must survive producing it
+	emit(fw.Case{Op: "act", Args: []string{"w2000,J,s3,U,U"}})
 	for _, s := range []string{"J,s6,T,T,H", "J,s9,T,T,H,CaL,Ra", "J,s5,T,s5,T,T,H"} {
 		emit(fw.Case{Op: "act", Args: []string{s}})
 	}
@@ -663,7 +671,10 @@ func execAct(c fw.Case) string {
 	var o *fw.OracleFailure
 	switch c.Op {
 	case "act":
-		if strings.Contains(c.Args[0], "B") || strings.Contains(c.Args[0], "b") || strings.Contains(c.Args[0], "Q:") || strings.Contains(c.Args[0], ",s") {
+		if strings.HasPrefix(c.Args[0], "w") { // w<ms>,…: the write callback takes <ms> milliseconds (a stalled writer)
+			ms := strings.SplitN(c.Args[0][1:], ",", 2)[0]
+			res, o = runActScript(c.Args[0], "-slow-write-ms", ms)
+		} else if strings.Contains(c.Args[0], "B") || strings.Contains(c.Args[0], "b") || strings.Contains(c.Args[0], "Q:") || strings.Contains(c.Args[0], ",s") {
 			// bursts: a slow write callback lets the connection's queue (capacity 3) fill up
 			res, o = runActScript(c.Args[0], "-slow-write-ms", "40")
 		} else {
